@@ -10,8 +10,14 @@ renamed* — and by the reference evaluator.
   the three spellings behave differently on the real compiler   -> ctx.violation (key variant:<case>)
   real != evaluator on these scoping/closure/aliasing programs   -> ctx.violation (shrunk)
   renaming changes the EVALUATOR's outcome                       -> correspondence broken (harness)
-corpus/C08/*.json run first.  corpus/C08/pending/ holds programs for defects reported to the lead
-that are neither fixed nor listed yet (run with VERIF_C08_PENDING=1).
+corpus/C08/*.json run first; among them the known finding `late-shadow-after-closure` (a closure
+capturing x followed, later in the same block, by a binding of x: the pinned compiler aborts with
+"unknown freevar x during emit") in three shapes, and the two neighbouring shapes that do compile
+(binding in an inner block / before the closure).  The generator avoids the aborting shape (weight
+late_shadow=1 re-enables it) and produces the compiling ones freely.
+Not modelled (evidence `assumptions`): adjacent nested functions are mutually visible in Never;
+Src/Eval.v binds them sequentially; the generator never lets an earlier sibling use a name that a later
+adjacent sibling defines.
 """
 LEVEL = "proof"
 
@@ -36,8 +42,6 @@ def run(ctx):
     tmp = os.path.join(ctx.outdir, "corpus_tmp")
     os.makedirs(tmp, exist_ok=True)
     ncorpus = c02mod.report_corpus(ctx, nevrun, tmp, CORPUS, "C08")
-    if os.environ.get("VERIF_C08_PENDING") == "1":
-        ncorpus += c02mod.report_corpus(ctx, nevrun, tmp, os.path.join(CORPUS, "pending"), "C08")
     n = 2100 if ctx.tier == "quick" else 27000
     r = evaldiff.run_evaldiff(ctx, PROFILES, n, ctx.tier, variants=("o", "u", "r"), nevrun=nevrun,
                               shrink_max=2 if ctx.tier == "quick" else 4)
@@ -58,6 +62,7 @@ def run(ctx):
         seen.add(key)
         ctx.violation(key, "scoping/closure/aliasing program %s: real outcome differs from the reference evaluator" % c["case"],
                       evaldiff.replay_of(c))
+    ctx.assumptions.extend(c02mod.NOT_MODELLED)
     ctx.coverage["variant_disagreements"] = len(r["c08"])
     ctx.coverage["evaluator_disagreements"] = len(r["c02"])
     ctx.coverage["corpus_programs"] = ncorpus
